@@ -15,13 +15,16 @@ static Result R;
 static Worker* W;
 
 // ---- seams
+static int NTHREADS = 1;                       // Threads option of the timed sessions
 static long long RATE_US = 1;                   // virtual microseconds per move made by the search
 struct Shared { VsTrace tr; long long tlReturn[256]; int nTl; long long makeMoves; };
 static Shared* SH = nullptr;
 extern "C" void __real__ZN8Position8makeMoveERK4MoveR8UndoInfo(Position*, const Move&, UndoInfo&);
 extern "C" void __wrap__ZN8Position8makeMoveERK4MoveR8UndoInfo(Position* self, const Move& m, UndoInfo& ui) {
     __real__ZN8Position8makeMoveERK4MoveR8UndoInfo(self, m, ui);
-    if (vs_active()) { vs_advance_us(RATE_US); if (SH) SH->makeMoves++; }
+    // virtual time is the work of the main search thread: with helpers, the serialising scheduler would otherwise let a helper "use up" time
+    // while the main thread is not even scheduled, which no parallel machine does
+    if (vs_active() && (NTHREADS == 1 || (ses::engineTidSet && pthread_equal(pthread_self(), ses::engineTid)))) { vs_advance_us_wake(RATE_US); if (SH) SH->makeMoves++; }
 }
 extern "C" void __real__ZN6Search9timeLimitEiiil(Search*, int, int, int, S64);
 extern "C" void __wrap__ZN6Search9timeLimitEiiil(Search* self, int a, int b, int c, S64 d) {
@@ -114,10 +117,11 @@ static void deliver(const std::string& opts, const std::string& pos, const TC& t
     if (W->dl.hit()) { R.exhaustive = false; return; }
     std::vector<std::string> script;
     { std::istringstream is(opts); std::string o; while (std::getline(is, o, ';')) if (!o.empty()) script.push_back(o); }
-    script.push_back("setoption name Threads value 1");
+    script.push_back("setoption name Threads value " + std::to_string(NTHREADS));
     script.push_back("isready"); script.push_back("@await readyok");
     script.push_back(pos); script.push_back(tc.go);
-    if (!inject.empty()) { script.push_back("@sleep " + std::to_string(injectAfterPolls)); script.push_back(inject); }   // @sleep n: virtual milliseconds (the search thread advances the clock)
+    // the injected command arrives after (500 + 613 k) searched nodes' worth of virtual time: every phase of the 1000-node polling interval
+    if (!inject.empty()) { script.push_back("@usleep " + std::to_string((500 + 613LL * injectAfterPolls) * RATE_US)); script.push_back(inject); }
     script.push_back("@await bestmove"); script.push_back("quit");
     std::string sstr; for (auto& l : script) { if (!sstr.empty()) sstr += " | "; sstr += l; }
     W->crumb(sstr);
@@ -125,7 +129,7 @@ static void deliver(const std::string& opts, const std::string& pos, const TC& t
     ses::Transcript t = runTimed(script, lines);
     ses::Analysis a = ses::analyse(t, true);
     R.count("states"); R.count("transitions", (long long)lines.size());
-    std::string rep = "{\"kind\":\"ops\",\"script\":\"" + jsonEsc(sstr) + "\",\"rate\":" + std::to_string(RATE_US) + "}";
+    std::string rep = "{\"kind\":\"ops\",\"script\":\"" + jsonEsc(sstr) + "\",\"rate\":" + std::to_string(RATE_US) + ",\"threads\":" + std::to_string(NTHREADS) + "}";
     for (auto& f : a.findings) R.violation("session:" + f.sig, sstr + " : " + f.detail.substr(0, 400), rep);
     if (SH->tr.result != VS_OK) { R.violation(SH->tr.result == VS_DEADLOCK ? "deadlock" : "livelock-or-horizon", sstr + " : " + SH->tr.message, rep); return; }
     long long tGo = -1, tBest = -1, tInject = -1;
@@ -147,10 +151,12 @@ static void deliver(const std::string& opts, const std::string& pos, const TC& t
     }
     if (!inject.empty() && SH->nTl > 0) {
         // latency from the return of the last limit-changing Search::timeLimit call (stop: (0,0); ponderhit: the computed limits)
-        long long tl = SH->tlReturn[SH->nTl - 1];
+        long long tl = -1;
+        for (int i = 0; i < SH->nTl; i++) if (SH->tlReturn[i] >= tInject) { tl = SH->tlReturn[i]; break; }   // the call made by this stop / ponderhit (later ones belong to quit)
+        if (tl < 0) { R.violation("no-limit-change-after-" + inject, sstr, rep); return; }
         long long lat = tBest - tl;
         long long allowance = I + 10000;    // + the 10 ms release loop of ponder / infinite searches
-        R.maxOf("max_stop_latency_us", lat);
+        R.maxOf("max_stop_latency_us", lat); if (lat > 100 * RATE_US) R.count("stops_landing_mid_interval");
         endedByLimit = true;
         bool limitsExhausted = inject == "stop" || (tc.budgetMs >= 0 && (tl - tGo) >= tc.budgetMs * 1000);
         if (limitsExhausted && lat > allowance)
@@ -207,14 +213,16 @@ int main(int argc, char** argv) {
     std::string part = w.args.get("part", "grid");
     R.part = part;
     RATE_US = w.args.getInt("rate", 1);
+    NTHREADS = (int)w.args.getInt("threads", 1);
     bool thorough = w.args.get("tier", "quick") == "thorough";
     if (w.args.has("replay")) {
         std::string txt = readFile(w.args.get("replay"));
-        std::string sc = jsonGetStr(txt, "script"); RATE_US = jsonGetInt(txt, "rate", 1);
+        std::string sc = jsonGetStr(txt, "script"); RATE_US = jsonGetInt(txt, "rate", 1); NTHREADS = (int)jsonGetInt(txt, "threads", 1);
         std::vector<std::string> s; size_t p = 0;
         while (!sc.empty()) { size_t q = sc.find(" | ", p); s.push_back(sc.substr(p, q == std::string::npos ? std::string::npos : q - p)); if (q == std::string::npos) break; p = q + 3; }
         std::vector<Line> lines; ses::Transcript t = runTimed(s, lines);
         for (auto& l : lines) fprintf(stderr, "@%lld %s\n", l.us, l.text.c_str());
+        for (int i = 0; i < SH->nTl; i++) fprintf(stderr, "timeLimit call %d returned at %lld us\n", i, SH->tlReturn[i]);
         w.finish(R); return 0;
     }
     if (part == "grid") grid();
